@@ -9,7 +9,7 @@ JUDGE = ("C01.",)
 PROGRAMS = ["forms"]
 RUNS = {"quick": 3000, "thorough": 150000}
 
-GEN_FNS = ("gen", "genloop")
+GEN_FNS = ("gen", "genloop", "genretry")
 
 
 def selectable(fnir):
@@ -38,6 +38,9 @@ def gen_probe_ops(rng, qual, fnir, pid, quarantine):
 def gen(rng, tier, quarantine=()):
     prog, fns = fn_table("forms")
     qual, fnir = rng.choice(fns)
+    if rng.random() < 0.12:
+        # generators get a share of their own: their driving sequences are the larger space
+        qual, fnir = rng.choice([(q, f) for q, f in fns if q in GEN_FNS])
     generated = None
     if "no-generated-programs" not in quarantine and rng.random() < 0.5:
         from .. import progen
@@ -74,7 +77,7 @@ def gen(rng, tier, quarantine=()):
             g = f"g{c}"
             ops.append({"op": "gen_new", "gen": g, "fn": qual, "nargs": 1})
             for _ in range(rng.randint(1, 6)):
-                k = rng.choice(["gen_next"] * 4 + ["gen_send"] * 3 + ["gen_throw", "gen_close", "gen_drop"])
+                k = rng.choice(["gen_next"] * 4 + ["gen_send"] * 3 + ["gen_throw"] * 2 + ["gen_close", "gen_drop"])
                 ops.append({"op": k, "gen": g, "tape": gen_tape(rng, 8),
                             "faults": gen_faults(rng, 8, rng.choice([0, 0, 1]))})
         else:
